@@ -1,1 +1,331 @@
-//! C06 harnesses (see /verif/tools/HARNESS_GUIDE.md).
+//! C06 — rolling and lagging results never depend on later (or pre-window) data. Engine K part (exact).
+//!
+//! (a) `c06_lag_*`  PREFIX STABILITY OF LAGS. `MapBasic::shift`, `MapValidBasic::vshift`, `MapValidVec::vdiff`,
+//!     `MapValidVec::vpct_change` with a symbolic lag `n in 0..=N+2`: the iterator is evaluated on the whole
+//!     series `x` (concrete length N, symbolic contents) and on every proper prefix `x[..cut]`, cut = 1..=N-1
+//!     (concrete, unrolled; cut = 0 compares nothing and cut = N is the same input twice); the first `cut` items
+//!     must be identical — integers / options by `==`, floats by `to_bits`
+//!     (two NaNs are accepted as the same null). The prefix iterator must also yield at least `cut` items.
+//!     Element types: i32 (explicit fill value, `i32::none()` does not exist), Option<i32>, f64 built from small
+//!     integers with symbolic NaN (`vpct_change` performs one division and one subtraction per item; both runs
+//!     evaluate the same expression on the same operands).
+//!       * `shift` is restricted to `n <= cut` (and hence `n <= N`): `MapBasic::shift` with n > len underflows
+//!         `len - n_abs`; that defect is owned by C09/C13 and excluded here by `assume`.
+//!       * `vdiff` with an EXPLICIT fill value is isolated in `c06_lag_vdiff_fill_*`: for len > n the first n items
+//!         are `x[i] - fill`, for len <= n they are `fill` — a prefix of length <= n disagrees with the whole series.
+//!         The main `vdiff` harnesses use the default fill (f64: NaN) or, for i32 (which needs an explicit fill),
+//!         only cuts > n.
+//!
+//! (b) `c06_pre_*`  PREFIX STABILITY OF THE EXACT ROLLING KERNELS. `ts_vsum` on Option<i32> (accumulates in i32),
+//!     `ts_vmin/vmax/vargmin/vargmax/vrank`, `ts_vminmaxnorm` on Option<i32>: same two-run scheme, every cut,
+//!     `w in 1..=N+2`, explicit `min_periods in 0..=w` always, omitted `min_periods` only when the prefix length
+//!     is >= w for the extrema/rank family (DESIGN 5.3: they derive the default from min(len, w)); outputs `Vec<f64>`
+//!     compared by bits (NaN == NaN). Cuts 1..=N-1: cut = N is the same input twice, cut = 0 compares nothing
+//!     (and empty input is C05's subject: `ts_vrank` panics on it).
+//!
+//! (c) `c06_loc_*`  WINDOW LOCALITY, exact: for `ts_vmin/vmax/vargmin/vargmax/vrank` and a symbolic position
+//!     `i >= w-1`, two series that agree on positions `i-w+1..` (the window and everything after it) and differ
+//!     arbitrarily before give the same `out[i]` (bits).
+use tea_core::prelude::*;
+use tea_map::{MapBasic, MapValidBasic, MapValidVec};
+use tea_rolling::*;
+
+use crate::util::*;
+
+// ---------------------------------------------------------------------------------------------
+// equality used for "bit-for-bit"
+// ---------------------------------------------------------------------------------------------
+
+pub trait Same: Copy {
+    fn same(self, o: Self) -> bool;
+    fn null(self) -> bool;
+}
+impl Same for i32 {
+    fn same(self, o: Self) -> bool {
+        self == o
+    }
+    fn null(self) -> bool {
+        false
+    }
+}
+impl Same for Option<i32> {
+    fn same(self, o: Self) -> bool {
+        self == o
+    }
+    fn null(self) -> bool {
+        self.is_none()
+    }
+}
+impl Same for f64 {
+    fn same(self, o: Self) -> bool {
+        self.to_bits() == o.to_bits() || (self.is_nan() && o.is_nan())
+    }
+    fn null(self) -> bool {
+        self.is_nan()
+    }
+}
+
+// ---------------------------------------------------------------------------------------------
+// (a) lags
+// ---------------------------------------------------------------------------------------------
+
+/// lag in 0..=N+2
+pub fn lag<const N: usize>() -> i32 {
+    let n: i32 = kani::any();
+    kani::assume(n >= 0 && n <= N as i32 + 2);
+    n
+}
+
+/// f64 series of small integers with symbolic NaN
+pub fn f64_series<const N: usize>() -> [f64; N] {
+    let mut a = [0.0f64; N];
+    let mut i = 0;
+    while i < N {
+        a[i] = small_f64_or_nan(-2, 2);
+        i += 1;
+    }
+    a
+}
+
+/// i32 series bounded so that differences cannot overflow
+pub fn i32_series<const N: usize>() -> [i32; N] {
+    let a: [i32; N] = kani::any();
+    let mut i = 0;
+    while i < N {
+        kani::assume(a[i] >= -(1 << 29) && a[i] <= (1 << 29));
+        i += 1;
+    }
+    a
+}
+
+/// small integers (pct_change: one f64 division per item, decidable on a small alphabet)
+pub fn small_i32_series<const N: usize>() -> [i32; N] {
+    let mut a = [0i32; N];
+    let mut i = 0;
+    while i < N {
+        a[i] = small_i32(-2, 2);
+        i += 1;
+    }
+    a
+}
+
+pub fn small_opt_series<const N: usize>() -> [Option<i32>; N] {
+    let a: [Option<i32>; N] = kani::any();
+    let mut i = 0;
+    while i < N {
+        if let Some(v) = a[i] {
+            kani::assume(v >= -2 && v <= 2);
+        }
+        i += 1;
+    }
+    a
+}
+
+/// all N items of the iterator over the whole series
+pub fn take_all<'a, U: Same, const N: usize>(mut it: Box<dyn TrustedLen<Item = U> + 'a>, dflt: U) -> [U; N] {
+    let mut a = [dflt; N];
+    let mut i = 0;
+    while i < N {
+        match it.next() {
+            Some(v) => a[i] = v,
+            None => assert!(false, "lag over the whole series yields N items"),
+        }
+        i += 1;
+    }
+    a
+}
+
+#[derive(Clone, Copy, Default)]
+pub struct LagCov {
+    /// an item that really is a lagged element (position >= n) was compared
+    pub lagged: bool,
+    /// an item inside the fill region (position < n) was compared
+    pub filled: bool,
+    /// a prefix not longer than the lag was compared with a whole series longer than the lag
+    pub short_prefix: bool,
+}
+
+/// the first `cut` items over the prefix equal the first `cut` items over the whole series
+pub fn same_prefix<'a, U: Same, const N: usize>(
+    mut it: Box<dyn TrustedLen<Item = U> + 'a>,
+    cut: usize,
+    n: i32,
+    whole: &[U; N],
+    c: &mut LagCov,
+) {
+    let mut i = 0;
+    while i < cut {
+        match it.next() {
+            Some(v) => {
+                if (i as i32) < n {
+                    c.filled = true;
+                } else {
+                    c.lagged = true;
+                }
+                assert!(v.same(whole[i]), "lag: item i over the prefix is bit-for-bit item i over the whole series");
+            },
+            None => assert!(false, "lag over a prefix of length cut yields cut items"),
+        }
+        i += 1;
+    }
+    if cut > 0 && n as usize >= cut && (n as usize) < N {
+        c.short_prefix = true;
+    }
+}
+
+// ---------------------------------------------------------------------------------------------
+// (b), (c) rolling kernels
+// ---------------------------------------------------------------------------------------------
+
+#[derive(Clone, Copy, PartialEq)]
+pub enum Kern {
+    Sum,
+    Min,
+    Max,
+    ArgMin,
+    ArgMax,
+    /// rank with the given `pct` flag (one f64 division per output when true); `rev` stays symbolic
+    Rank(bool),
+    MinMaxNorm,
+}
+
+impl Kern {
+    /// the extrema/rank family derives an omitted min_periods from min(len, w)
+    pub fn omitted_needs_full(self) -> bool {
+        !matches!(self, Kern::Sum | Kern::MinMaxNorm)
+    }
+}
+
+#[derive(Clone, Copy)]
+pub struct Par {
+    pub w: usize,
+    pub mp: Option<usize>,
+    pub rev: bool,
+}
+
+pub fn params<const N: usize>() -> Par {
+    let w: usize = kani::any();
+    kani::assume(w >= 1 && w <= N + 2);
+    let explicit: bool = kani::any();
+    let m: usize = kani::any();
+    kani::assume(m <= w);
+    Par { w, mp: if explicit { Some(m) } else { None }, rev: kani::any() }
+}
+
+/// Option<i32> series: alphabet 0..=2 with any null mask (ties), or i16-range values for the sum
+pub fn opt_series<const N: usize>(k: Kern) -> [Option<i32>; N] {
+    let a: [Option<i32>; N] = kani::any();
+    let mut i = 0;
+    while i < N {
+        if let Some(v) = a[i] {
+            if k == Kern::Sum {
+                kani::assume(v >= -32768 && v <= 32767);
+            } else {
+                kani::assume(v >= 0 && v <= 2);
+            }
+        }
+        i += 1;
+    }
+    a
+}
+
+pub fn run(k: Kern, v: &Vec<Option<i32>>, p: &Par) -> Vec<f64> {
+    match k {
+        Kern::Sum => v.ts_vsum(p.w, p.mp),
+        Kern::Min => v.ts_vmin(p.w, p.mp),
+        Kern::Max => v.ts_vmax(p.w, p.mp),
+        Kern::ArgMin => v.ts_vargmin(p.w, p.mp),
+        Kern::ArgMax => v.ts_vargmax(p.w, p.mp),
+        Kern::Rank(pct) => v.ts_vrank(p.w, p.mp, pct, p.rev),
+        Kern::MinMaxNorm => v.ts_vminmaxnorm(p.w, p.mp),
+    }
+}
+
+#[derive(Clone, Copy, Default)]
+pub struct RollCov {
+    pub null_cmp: bool,
+    pub val_cmp: bool,
+    /// compared a position of a prefix shorter than the window
+    pub short: bool,
+    /// compared a position whose window has lost its first element (i >= w)
+    pub steady: bool,
+    pub omitted: bool,
+}
+
+/// outputs over the prefix `x[..cut]` equal the first `cut` outputs over the whole series
+pub fn same_rolling_prefix<const N: usize>(k: Kern, x: &[Option<i32>; N], cut: usize, p: &Par, whole: &Vec<f64>, c: &mut RollCov) {
+    // omitted min_periods: extrema/rank family only for prefix length >= w (DESIGN 5.3)
+    if p.mp.is_none() && k.omitted_needs_full() && cut < p.w {
+        return;
+    }
+    let pre: Vec<Option<i32>> = x[..cut].to_vec();
+    let out = run(k, &pre, p);
+    assert!(out.len() == cut, "rolling: one output per element of the prefix");
+    let mut i = 0;
+    while i < cut {
+        assert!(out[i].same(whole[i]), "rolling: output i over the prefix is bit-for-bit output i over the whole series");
+        if out[i].is_nan() {
+            c.null_cmp = true;
+        } else {
+            c.val_cmp = true;
+        }
+        if i >= p.w {
+            c.steady = true;
+        }
+        i += 1;
+    }
+    if cut > 0 && cut < p.w && cut < N {
+        c.short = true;
+    }
+    if p.mp.is_none() && cut > 0 {
+        c.omitted = true;
+    }
+}
+
+#[derive(Clone, Copy, Default)]
+pub struct LocCov {
+    pub differs_before: bool,
+    pub null_cmp: bool,
+    pub val_cmp: bool,
+}
+
+/// window locality at a symbolic position i >= w-1
+pub fn locality<const N: usize>(k: Kern) -> LocCov {
+    let x = opt_series::<N>(k);
+    let y = opt_series::<N>(k);
+    let p = params::<N>();
+    let i: usize = kani::any();
+    kani::assume(i < N && i + 1 >= p.w);
+    let mut c = LocCov::default();
+    let mut j = 0;
+    while j < N {
+        if j + p.w > i {
+            // the window of position i and everything after it
+            kani::assume(x[j] == y[j]);
+        } else if x[j] != y[j] {
+            c.differs_before = true;
+        }
+        j += 1;
+    }
+    let vx = x.to_vec();
+    let vy = y.to_vec();
+    let ox = run(k, &vx, &p);
+    let oy = run(k, &vy, &p);
+    assert!(ox.len() == N && oy.len() == N, "rolling: one output per element");
+    // read position i without a symbolic index
+    let mut j = 0;
+    while j < N {
+        if j == i {
+            assert!(ox[j].same(oy[j]), "rolling: output i does not depend on elements before the window start i-w+1");
+            if ox[j].is_nan() {
+                c.null_cmp = true;
+            } else {
+                c.val_cmp = true;
+            }
+        }
+        j += 1;
+    }
+    c
+}
+
+include!("c06_gen.rs");
